@@ -82,6 +82,7 @@ type Machine struct {
 	globals      map[*ssa.Global]*Obj
 	inited       map[*ssa.Package]int // 1 in progress 2 done
 	pc           []*Term
+	pcLit        map[*Term]bool
 	prefix       []int32
 	decPos       int
 	taken        []int32
